@@ -285,7 +285,7 @@ def mixed_scenario(rng, L, tname, sname, cfg, answers=None, npk=None, malformed_
 
 def rand_cfg(rng, **over):
     kw = dict(angle=rng.choice([0, 1, 100, 9000, 18000, 35990, 35999]), pktcb=rng.randrange(2), wait=rng.randrange(2), dense=0,
-              mode=rng.choice([1, 1, 1, 2, 3]), nblk=rng.choice([1, 2, 5, 12, 13, 40]), lclock=1, tsfirst=rng.randrange(2), tz=rng.choice([0, 28800, -12600]))
+              mode=rng.choice([1, 1, 1, 2, 3]), nblk=rng.choice([1, 2, 5, 12, 13, 40, 0]), lclock=1, tsfirst=rng.randrange(2), tz=rng.choice([0, 28800, -12600]))
     # a restricted field of view in a good third of the configurations (boundaries that fall inside blocks: per-channel azimuths decide)
     st_en = rng.choice([(0, 36000)] * 4 + [(9010, 27000), (27000, 9000), (100, 35900), (4500, 4499), (35990, 18005)])
     kw['start'], kw['end'] = st_en
